@@ -369,18 +369,19 @@ template <class S, class T> static void xform (uint64_t seed, int n)
         for (int form = 0; form < 4; ++form)
         {
             if ((form == 2 || form == 3) && isproj) continue;   // affineTransform requires an affine matrix
-            for (int pre = 0; pre < 3; ++pre)
+            for (int pre = 0; pre < 4; ++pre)
             {
                 if ((form == 0 || form == 2) && pre > 0) continue;
                 Box<Vec3<S>> res;
                 if (pre == 1) { res.min = Vec3<S> ((S) -50, (S) 60, (S) -70); res.max = Vec3<S> ((S) 80, (S) 90, (S) 100); }
                 if (pre == 2) res.makeInfinite ();
+                if (pre == 3) res = box;                 // in place: the result object IS the source (transform (b, m, b))
                 switch (form)
                 {
                     case 0: res = transform (box, m); break;
-                    case 1: transform (box, m, res); break;
+                    case 1: if (pre == 3) transform (res, m, res); else transform (box, m, res); break;
                     case 2: res = affineTransform (box, m); break;
-                    default: affineTransform (box, m, res); break;
+                    default: if (pre == 3) affineTransform (res, m, res); else affineTransform (box, m, res); break;
                 }
                 fprintf (o, "{\"e\":\"xform\",\"fn\":\"%s\",\"form\":\"%s\",\"S\":\"%s\",\"T\":\"%s\",\"pre\":%d,\"kind\":\"%s\",\"box\":{\"mn\":[%d,%d,%d],\"mx\":[%d,%d,%d]},\"m\":[",
                          form < 2 ? "transform" : "affineTransform", (form & 1) ? "out" : "ret", TN<S>::n (), TN<T>::n (), pre,
